@@ -29,13 +29,13 @@ void vf_x86_mul64(u64 *rax, u64 *rdx, u64 src) { __CPROVER_assert(0, "no multipl
  *   3: input stride 0 (broadcast of element 0), output stride 2, input index lists constant 5, output lists spread
  *   4: large stride 65537, index lists k*65537 */
 #if VF_SHAPE == 1
-static u64 SHI4[4] = {3,2,1,0}, SHI8[8] = {7,6,5,4,3,2,1,0}, SHO4[4] = {3,2,1,0}, SHO8[8] = {7,6,5,4,3,2,1,0};
+static const u64 SHI4[4] = {3,2,1,0}, SHI8[8] = {7,6,5,4,3,2,1,0}, SHO4[4] = {3,2,1,0}, SHO8[8] = {7,6,5,4,3,2,1,0};
 #define SH_STRIDE_IN(p) ((u64)1)
 #define SH_STRIDE_OUT(p) ((u64)1)
-#define SH_IDX_IN4(p) SHI4
-#define SH_IDX_IN8(p) SHI8
-#define SH_IDX_OUT4(p) SHO4
-#define SH_IDX_OUT8(p) SHO8
+#define SH_IDX_IN4(p) ((u64 *)SHI4)
+#define SH_IDX_IN8(p) ((u64 *)SHI8)
+#define SH_IDX_OUT4(p) ((u64 *)SHO4)
+#define SH_IDX_OUT8(p) ((u64 *)SHO8)
 #define FRESH_IDX(p, n) 1
 #define STRIDEPAT_IN(s) ((s) == 1)
 #define STRIDEPAT_OUT(s) ((s) == 1)
@@ -44,13 +44,13 @@ static u64 SHI4[4] = {3,2,1,0}, SHI8[8] = {7,6,5,4,3,2,1,0}, SHO4[4] = {3,2,1,0}
 #define IDXPAT_OUT4(p) IDXPAT_IN4(p)
 #define IDXPAT_OUT8(p) IDXPAT_IN8(p)
 #elif VF_SHAPE == 2
-static u64 SHI4[4] = {3,8,2,7}, SHI8[8] = {3,8,2,7,1,6,0,5}, SHO4[4] = {3,8,2,7}, SHO8[8] = {3,8,2,7,1,6,0,5};
+static const u64 SHI4[4] = {3,8,2,7}, SHI8[8] = {3,8,2,7,1,6,0,5}, SHO4[4] = {3,8,2,7}, SHO8[8] = {3,8,2,7,1,6,0,5};
 #define SH_STRIDE_IN(p) ((u64)3)
 #define SH_STRIDE_OUT(p) ((u64)3)
-#define SH_IDX_IN4(p) SHI4
-#define SH_IDX_IN8(p) SHI8
-#define SH_IDX_OUT4(p) SHO4
-#define SH_IDX_OUT8(p) SHO8
+#define SH_IDX_IN4(p) ((u64 *)SHI4)
+#define SH_IDX_IN8(p) ((u64 *)SHI8)
+#define SH_IDX_OUT4(p) ((u64 *)SHO4)
+#define SH_IDX_OUT8(p) ((u64 *)SHO8)
 #define FRESH_IDX(p, n) 1
 #define STRIDEPAT_IN(s) ((s) == 3)
 #define STRIDEPAT_OUT(s) ((s) == 3)
@@ -59,13 +59,13 @@ static u64 SHI4[4] = {3,8,2,7}, SHI8[8] = {3,8,2,7,1,6,0,5}, SHO4[4] = {3,8,2,7}
 #define IDXPAT_OUT4(p) IDXPAT_IN4(p)
 #define IDXPAT_OUT8(p) IDXPAT_IN8(p)
 #elif VF_SHAPE == 3
-static u64 SHI4[4] = {5,5,5,5}, SHI8[8] = {5,5,5,5,5,5,5,5}, SHO4[4] = {3,8,2,7}, SHO8[8] = {3,8,2,7,1,6,0,5};
+static const u64 SHI4[4] = {5,5,5,5}, SHI8[8] = {5,5,5,5,5,5,5,5}, SHO4[4] = {3,8,2,7}, SHO8[8] = {3,8,2,7,1,6,0,5};
 #define SH_STRIDE_IN(p) ((u64)0)
 #define SH_STRIDE_OUT(p) ((u64)2)
-#define SH_IDX_IN4(p) SHI4
-#define SH_IDX_IN8(p) SHI8
-#define SH_IDX_OUT4(p) SHO4
-#define SH_IDX_OUT8(p) SHO8
+#define SH_IDX_IN4(p) ((u64 *)SHI4)
+#define SH_IDX_IN8(p) ((u64 *)SHI8)
+#define SH_IDX_OUT4(p) ((u64 *)SHO4)
+#define SH_IDX_OUT8(p) ((u64 *)SHO8)
 #define FRESH_IDX(p, n) 1
 #define STRIDEPAT_IN(s) ((s) == 0)
 #define STRIDEPAT_OUT(s) ((s) == 2)
@@ -74,13 +74,13 @@ static u64 SHI4[4] = {5,5,5,5}, SHI8[8] = {5,5,5,5,5,5,5,5}, SHO4[4] = {3,8,2,7}
 #define IDXPAT_OUT4(p) (p[0] == 3 && p[1] == 8 && p[2] == 2 && p[3] == 7)
 #define IDXPAT_OUT8(p) (p[0] == 3 && p[1] == 8 && p[2] == 2 && p[3] == 7 && p[4] == 1 && p[5] == 6 && p[6] == 0 && p[7] == 5)
 #elif VF_SHAPE == 4
-static u64 SHI4[4] = {0,65537,131074,196611}, SHI8[8] = {0,65537,131074,196611,262148,327685,393222,458759}, SHO4[4] = {0,65537,131074,196611}, SHO8[8] = {0,65537,131074,196611,262148,327685,393222,458759};
+static const u64 SHI4[4] = {0,65537,131074,196611}, SHI8[8] = {0,65537,131074,196611,262148,327685,393222,458759}, SHO4[4] = {0,65537,131074,196611}, SHO8[8] = {0,65537,131074,196611,262148,327685,393222,458759};
 #define SH_STRIDE_IN(p) ((u64)65537)
 #define SH_STRIDE_OUT(p) ((u64)65537)
-#define SH_IDX_IN4(p) SHI4
-#define SH_IDX_IN8(p) SHI8
-#define SH_IDX_OUT4(p) SHO4
-#define SH_IDX_OUT8(p) SHO8
+#define SH_IDX_IN4(p) ((u64 *)SHI4)
+#define SH_IDX_IN8(p) ((u64 *)SHI8)
+#define SH_IDX_OUT4(p) ((u64 *)SHO4)
+#define SH_IDX_OUT8(p) ((u64 *)SHO8)
 #define FRESH_IDX(p, n) 1
 #define STRIDEPAT_IN(s) ((s) == 65537)
 #define STRIDEPAT_OUT(s) ((s) == 65537)
